@@ -152,6 +152,12 @@ def run_case(case):
             if sc["topology"] == "shared":
                 t = share_handle(w.open(), sch)
                 tabs = [t] * nact
+            elif sc["topology"] == "rw0":
+                # the readers and the FIRST writer are threads on one handle (whatever that writer leaves on the handle, e.g.
+                # after a failed commit, is what the readers read through); every other writer has a handle of its own
+                t = share_handle(w.open(), sch)
+                nr = len(sc["readers"])
+                tabs = [t] * (nr + 1) + [w.open() for _ in range(nact - nr - 1)]
             else:
                 tabs = [w.open() for _ in range(nact)]
             actors = []
@@ -160,7 +166,7 @@ def run_case(case):
                     for qi, spec in enumerate(reads):
                         a = sch.global_steps
                         restore = None
-                        if spec.get("fault") and sc["topology"] != "shared":
+                        if spec.get("fault") and sc["topology"] == "separate":
                             # one transient error on this reader's k-th storage call that touches the pointer
                             stg, me, left = t.storage, sch.me(), [spec["fault"]]
                             origs = {m: getattr(stg, m) for m in ("read_file", "exists")}
@@ -312,6 +318,7 @@ FIXED = [
     {"world": "local", "topology": "separate", "nprior": 2, "readers": [[read_spec(api="scan"), read_spec(api="row_count")]], "writers": [{"op": "replace", "which": 0}, {"op": "append"}]},
     {"world": "local", "topology": "separate", "nprior": 1, "readers": [[read_spec(api="scan"), read_spec(api="row_count")]], "writers": [{"op": "late_fault", "j": 2}]},
     {"world": "local", "topology": "separate", "nprior": 3, "readers": [[read_spec(api="scan"), read_spec(api="batches1")]], "writers": [{"op": "replace_gc", "which": 1}]},
+    {"world": "local", "topology": "rw0", "all_orders": True, "nprior": 1, "readers": [[read_spec(api="scan"), read_spec(api="row_count")]], "writers": [{"op": "failing"}, {"op": "append"}]},
 ]
 # two readers on ONE shared handle (threads sharing a Table) + a writer: anything a read leaves on the handle must not leak into the other reader
 RICH = [
@@ -338,7 +345,9 @@ def run_enum(task):
                         if j != first:
                             scheds.append({"order": list(order), "preempt": [[1, first], [i, j]]})
     else:
-        for order in (list(range(n)), list(reversed(range(n)))):
+        orders = [list(o) for o in itertools.permutations(range(n))] if sc.get("all_orders") else [list(range(n)), list(reversed(range(n)))]
+        scheds += [{"order": o} for o in orders if {"order": o} not in scheds]
+        for order in orders:
             for i in range(1, int(D * 1.15) + 2):
                 for j in range(n):
                     scheds.append({"order": order, "preempt": [[i, j]]})
@@ -357,7 +366,7 @@ def run_enum(task):
 @st.composite
 def pct_case(draw):
     world = draw(st.sampled_from(["local", "local", "s3cas"]))
-    topo = draw(st.sampled_from(["separate", "separate", "shared"]))
+    topo = draw(st.sampled_from(["separate", "separate", "shared", "rw0"]))
     nprior = draw(st.integers(0, 3))
     readers = []
     for _ in range(draw(st.integers(1, 2))):
